@@ -579,6 +579,7 @@ with tc_branches_provider (g : ctx) (bs : brs) (seen : list string) (b : branche
     match find_br l bs with
     | None => TErr "branch does not match the type"
     | Some bt =>
+      tdo _ <- guard (negb (ctx_has g (ident pay))) "variable name already defined";
       tdo bt' <- unfold_opt D (Some bt);
       let pay' := set_nty pay bt' in
       tdo _ <- check_pols [pay'];
